@@ -240,6 +240,23 @@ Definition demand_charge_agg (TS : list sched) (start : Z) (agg : list Q) : res 
 
 Definition energy_cost (TS : list sched) (start period : Z) (voltages : list Q) (cols : list (list Q)) :=
   energy_cost_agg TS start period (aggregate_power voltages cols).
+(* which tariff prices a simulation: the one passed explicitly, else signals["tariff"], else ValueError *)
+Definition pricing_tariff (signal explicit : option (list sched)) : res (list sched) :=
+  match explicit with
+  | Some TS => Ok TS
+  | None => match signal with Some TS => Ok TS | None => Err "ValueError:nopricing" end
+  end.
+
+Definition energy_cost_sim (signal explicit : option (list sched)) (start : Z) (period : Q)
+           (voltages : list Q) (cols : list (list Q)) : res Q :=
+  res_bind (pricing_tariff signal explicit) (fun TS =>
+  energy_cost_agg_q TS start period (aggregate_power voltages cols)).
+
+Definition demand_charge_sim (signal explicit : option (list sched)) (start : Z)
+           (voltages : list Q) (cols : list (list Q)) : res Q :=
+  res_bind (pricing_tariff signal explicit) (fun TS =>
+  demand_charge_agg TS start (aggregate_power voltages cols)).
+
 Definition energy_cost_q (TS : list sched) (start : Z) (period : Q) (voltages : list Q) (cols : list (list Q)) :=
   energy_cost_agg_q TS start period (aggregate_power voltages cols).
 Definition demand_charge (TS : list sched) (start : Z) (voltages : list Q) (cols : list (list Q)) :=
@@ -378,7 +395,12 @@ Inductive c17case :=
 | CTariffsQ (src : tsrc) (start length : Z) (period : Q) (expect : res (list Q))
 | CPricesQ (src : option tsrc) (start : Z) (period : Q) (iteration length : Z) (st : option Z) (expect : res (list Q))
 | CIfaceDemandQ (src : option tsrc) (start : Z) (period : Q) (iteration : Z) (st : option Z) (expect : res Q)
-| CEnergyQ (src : tsrc) (start : Z) (period : Q) (voltages : list Q) (cols : list (list Q)) (expect : res Q).
+| CEnergyQ (src : tsrc) (start : Z) (period : Q) (voltages : list Q) (cols : list (list Q)) (expect : res Q)
+(* cost functions with the simulator's signal tariff and the explicitly passed tariff given separately *)
+| CEnergyP (signal explicit : option tsrc) (start : Z) (period : Q) (voltages : list Q) (cols : list (list Q))
+           (expect : res Q)
+| CDemandChargeP (signal explicit : option tsrc) (start : Z) (voltages : list Q) (cols : list (list Q))
+                 (expect : res Q).
 
 Definition load_opt (src : option tsrc) : res (option (list sched)) :=
   match src with None => Ok None | Some sr => res_map Some (load sr) end.
@@ -417,4 +439,14 @@ Definition check_c17 (c : c17case) : bool :=
   | CIfaceDemandQ src st p it s e =>
       res_eqb Qeqb (match load_opt src with Ok t => iface_get_demand_charge_q t st p it s | Err x => Err ("ctor:" ++ x) end) e
   | CEnergyQ src st p v cols e => res_eqb Qclose (with_tariff src (fun TS => energy_cost_q TS st p v cols)) e
+  | CEnergyP sg ex st p v cols e =>
+      res_eqb Qclose (match load_opt sg, load_opt ex with
+                      | Ok a, Ok b => energy_cost_sim a b st p v cols
+                      | Err x, _ | _, Err x => Err ("ctor:" ++ x)
+                      end) e
+  | CDemandChargeP sg ex st v cols e =>
+      res_eqb Qclose (match load_opt sg, load_opt ex with
+                      | Ok a, Ok b => demand_charge_sim a b st v cols
+                      | Err x, _ | _, Err x => Err ("ctor:" ++ x)
+                      end) e
   end.
